@@ -535,8 +535,8 @@ def structures_for_tier(ck):
         # 3 leaves: every shape once (seeded marking), part of the vector space each
         for s in s3:
             mask = rng.randrange(8)
-            out.append((instantiate(s, [mask >> i & 1 for i in range(3)]), "random:3"))
-        nrand = {4: 450, 5: 350, 6: 350}
+            out.append((instantiate(s, [mask >> i & 1 for i in range(3)]), "random:2"))
+        nrand = {4: 320, 5: 260, 6: 260}
     for n, cnt in sorted(nrand.items()):
         for _ in range(cnt):
             s = random_shape(rng, n, rng.choice([1, 2, 2, 3, 3]))
